@@ -314,8 +314,7 @@ def run(ctx):
             ("mc_fixed", consts(3, 1, spans="{0, 1}", fix=True, maxptrs=2, maxfiles=2), "BackwardsFails")]
     if thorough:
         runs += [("mc_w1big", consts(3, 1, spans="{0, 1}", anyfile=True), AS_IS),
-                 ("mc_w1delbig", consts(3, 1, spans="{1}", deletes=True), AS_IS),
-                 ("mc_w2big", consts(3, 2, maxwrite=1, spans="{1}", maxptrs=2, maxfilesize=3), AS_IS)]
+                 ("mc_w1delbig", consts(3, 1, spans="{1}", deletes=True), AS_IS)]
     for name, c, back in runs:
         r = mc(name, "DomainIndex", mc_cfg(c, back))
         if r.violated:
@@ -366,10 +365,10 @@ def run(ctx):
         gen_and_replay("g_roll", 4, consts(4, 1, spans="{2}"), 7, 3, freewd=False, vary=True)
         gen_and_replay("g_del", 5, consts(5, 1, spans="{1}", deletes=True), 5, 4, freewd=False, vary=True)
         exhaustive_n = sum(g["histories"] for g in gens)
-        gen_and_replay("s_any", 5, consts(5, 3, spans="{0, 1, 2, 3}", anyfile=True), 9, 0, simulate="num=1200",
+        gen_and_replay("s_any", 5, consts(5, 3, spans="{0, 1, 2, 3}", anyfile=True), 9, 0, simulate="num=250",
                        simdepth=10, keep=0.2, vary=True)
     else:
-        gen_and_replay("g_free", 3, consts(3, 2, spans="{0, 1, 2}"), 4, 0, vary=True)
+        gen_and_replay("g_free", 3, consts(3, 2, spans="{0, 1}"), 4, 0, vary=True)
         gen_and_replay("g_free4", 4, consts(4, 2, maxwrite=1, spans="{2, 3}"), 4, 0, vary=True)
         gen_and_replay("g_free5", 5, consts(5, 2, spans="{1}"), 6, 1, vary=True)
         gen_and_replay("g_flow2", 5, consts(5, 2, spans="{1}"), 7, 1, freewd=False, vary=True)
@@ -380,9 +379,9 @@ def run(ctx):
         gen_and_replay("g_del4", 5, consts(5, 2, spans="{1}", deletes=True), 6, 4, freewd=False, vary=True)
         exhaustive_n = sum(g["histories"] for g in gens)
         gen_and_replay("s_big", 7, consts(7, 3, spans="{0, 1, 2, 3}", anyfile=True, deletes=True, maxdeloff=2), 12, 5,
-                       pairwc=False, maxdel=3, simulate="num=4000", simdepth=13, keep=0.2, vary=True)
+                       pairwc=False, maxdel=3, simulate="num=300", simdepth=13, keep=0.2, vary=True)
         gen_and_replay("s_any", 6, consts(6, 3, spans="{0, 1, 2, 3}", anyfile=True), 10, 0, pairwc=True,
-                       simulate="num=6000", simdepth=11, keep=0.2, vary=True)
+                       simulate="num=400", simdepth=11, keep=0.2, vary=True)
     ctx.notes.append("bounded-exhaustive histories: %d; simulated (seeded, sampled): %d" % (
         exhaustive_n, sum(g["histories"] for g in gens) - exhaustive_n))
 
@@ -391,7 +390,7 @@ def run(ctx):
 
     cnt = judge.counters
     vac = [k for k in ("OpenConflict", "CommitConflict", "CommitValidation", "CommitError", "CommitNoop", "Rollovers",
-                       "Adjacent", "FailedOpsChecked", "BytesCompared", "Dev") if not cnt.get(k)]
+                       "Adjacent", "Updates", "FailedOpsChecked", "BytesCompared", "Dev") if not cnt.get(k)]
     if thorough and not cnt.get("DeleteChanged"):
         vac.append("DeleteChanged")
     cov = {
